@@ -968,31 +968,8 @@ theorem sel3_api_first (cls : Cls) (kvs : List (Str × Val)) (xp : Str) (toks : 
     (hfind : Sel2Coll (.dict cls kvs) false (findD fuel (.dict cls kvs) [] false true toks (.at []) false slash) vals) :
     first fuel (.dict cls kvs) xp d = (.dict cls kvs, .ok (firstOf vals d)) := by
   obtain ⟨r0, hr0, hf0, hv0⟩ := hfind
-  rw [first, getCore_of_find cls kvs xp toks d false false fuel r0 hq hpc htok hr0]
-  cases vals with
-  | nil =>
-    have : r0.isFound = false := by simp [hf0]
-    simp only [this, Bool.false_eq_true, if_false, firstOf]
-    cases d with
-    | list c xs =>
-      cases xs with
-      | nil => rfl
-      | cons x xs => cases xs <;> rfl
-    | _ => rfl
-  | cons v vs =>
-    have hfd : r0.isFound = true := by simp [hf0]
-    have hv := hv0 hfd
-    simp only [hfd, if_true, hv, firstOf]
-    cases vs with
-    | nil =>
-      simp only [collect, Bool.not_false, List.length_singleton, decide_true, Bool.and_self, if_true, List.headD_cons]
-      cases v with
-      | list c xs =>
-        cases xs with
-        | nil => rfl
-        | cons x xs => cases xs <;> rfl
-      | _ => rfl
-    | cons v2 vs => simp [collect, unwrap1]
+  exact first_of_collect vals
+    (fun d' => getCore_of_find cls kvs xp toks d' false false fuel r0 hq hpc htok hr0) hf0 hv0 d
 
 theorem sel3_sp_noQ (cls : Cls) (kvs : List (Str × Val)) (lead : Lead) (steps : List StepSp) (c : Val) (Y : Str)
     (hp : PlainSteps steps) (hne : steps ≠ []) (hget : stepsGet (.dict cls kvs) steps = some c) :
